@@ -5,13 +5,26 @@ from __future__ import annotations
 import functools
 
 PARSE_LOG = []     # (name, args, result, exception-name)
+PARSE_ROLE = []    # parallel to PARSE_LOG: role of the simulated thread that made the call
 RECV_LOG = []      # (connection id, receiving side 'client'|'server', message or None, exception)
 _on = [True]
 
 
 def reset():
     del PARSE_LOG[:]
+    del PARSE_ROLE[:]
     del RECV_LOG[:]
+
+
+def _role():
+    try:
+        from .core import current_sim
+        s = current_sim()
+        if s is not None and s.active and s.in_sim_thread():
+            return s.me().role
+    except Exception:
+        pass
+    return '-'
 
 
 def _wrap_receive(fn):
@@ -61,9 +74,11 @@ def _wrap(name, fn):
         except Exception as e:
             if _on[0]:
                 PARSE_LOG.append((name, args, None, type(e).__name__))
+                PARSE_ROLE.append(_role())
             raise
         if _on[0]:
             PARSE_LOG.append((name, args, _snap(r), None))
+            PARSE_ROLE.append(_role())
         return r
     w._verif_wrapped = True
     return w
